@@ -64,6 +64,7 @@ type Cut struct {
 	Clause *Clause
 	Ord    int
 	After  bool // assumption applies after the anchored statement
+	Forget []string // variables whose definition is forgotten after the cut (abstraction point)
 }
 
 type LemmaParam struct {
@@ -350,13 +351,21 @@ func (c *Contract) addClause(kw, text, src string) error {
 		anchor := t[1 : 1+end]
 		rest := strings.TrimSpace(t[end+2:])
 		cut := &Cut{Anchor: anchor, Reveal: map[string]bool{}, Ord: len(c.Cuts)}
-		if strings.HasPrefix(rest, "reveal") {
+		if strings.HasPrefix(rest, "reveal") || strings.HasPrefix(rest, "forget") {
 			i := strings.Index(rest, ":")
 			if i < 0 {
 				return fmt.Errorf("%s: cut: missing ':'", src)
 			}
-			for _, n := range strings.FieldsFunc(rest[len("reveal"):i], func(r rune) bool { return r == ',' || r == ' ' }) {
-				cut.Reveal[n] = true
+			mode := ""
+			for _, n := range strings.FieldsFunc(rest[:i], func(r rune) bool { return r == ',' || r == ' ' }) {
+				switch {
+				case n == "reveal" || n == "forget":
+					mode = n
+				case mode == "reveal":
+					cut.Reveal[n] = true
+				case mode == "forget":
+					cut.Forget = append(cut.Forget, n)
+				}
 			}
 			rest = rest[i:]
 		}
